@@ -276,3 +276,48 @@ def gen_calib(info):
 
 
 GENERATORS.append(gen_calib)
+
+
+def gen_tsm(info):
+    """Scan-motor interval tables (ms since 1970) with the spacecraft the ids denote, and the channel
+    selection of get_tsm_pixels probed with tagged images."""
+    import datetime as dt
+    from pygac import correct_tsm_issue as tsm
+    from pygac.gac_klm import GACKLMReader
+    from pygac.gac_pod import GACPODReader
+    ep = dt.datetime(1970, 1, 1)
+    ms = lambda d: int(round((d - ep).total_seconds() * 1000))
+    out = [HEADER, "namespace PygacModel.Generated\n"]
+    for fam, tab, cls in (("Pod", tsm.TSM_AFFECTED_INTERVALS_POD, GACPODReader), ("Klm", tsm.TSM_AFFECTED_INTERVALS_KLM, GACKLMReader)):
+        assert cls.tsm_affected_intervals is tab
+        rows = []
+        for sid in sorted(tab):
+            name = cls.spacecraft_names.get(sid, "?")
+            rows.append("(%d, %s, %s)" % (sid, lstr(name), llist(["(%s, %s)" % (lint(ms(a)), lint(ms(b))) for a, b in tab[sid]],
+                                                                per_line=3, indent="    ")))
+        out.append("/-- (spacecraft id, name, [(start ms, end ms)]) -/\n")
+        out.append("def tsmIntervals%s : List (Nat × String × List (Int × Int)) := %s\n" % (fam, llist(rows)))
+        # channel selection: which slots of the channel cube reach get_tsm_idx, probed by wrapping it
+        got = {}
+        orig = tsm.get_tsm_idx
+        import importlib
+        mod = importlib.import_module(cls.__mro__[1].__module__ if fam == "Klm" else cls.__mro__[1].__module__)
+        fam_mod = importlib.import_module("pygac.klm_reader" if fam == "Klm" else "pygac.pod_reader")
+        orig_f = fam_mod.get_tsm_idx
+
+        def probe(a, b, c, d):
+            got["slots"] = [int(x[0, 0]) for x in (a, b, c, d)]
+            return (np.array([], dtype=int), np.array([], dtype=int))
+        fam_mod.get_tsm_idx = probe
+        try:
+            nslot = 6 if fam == "Klm" else 5
+            cube = np.zeros((2, 2, nslot)) + np.arange(nslot)[None, None, :]
+            cls().get_tsm_pixels(cube)
+        finally:
+            fam_mod.get_tsm_idx = orig_f
+        out.append("def tsmSlots%s : List Nat := %s\n" % (fam, llist([str(x) for x in got.get("slots", [])], per_line=4)))
+    out.append("end PygacModel.Generated\n")
+    return "Tsm.lean", "".join(out)
+
+
+GENERATORS.append(gen_tsm)
